@@ -10,18 +10,19 @@ Section StepProofs.
   Variable funcs : list func.
   Variable units : list (N * N).
   Variable oc : bool.
+  Variable ec : N.
 
-  Notation single_step := (single_step tr).
-  Notation sstep := (sstep tr).
-  Notation stepi := (stepi tr).
+  Notation single_step := (single_step tr ec).
+  Notation sstep := (sstep tr ec).
+  Notation stepi := (stepi tr ec).
   Notation find_exact := (find_exact rows units oc).
   Notation find_func := (find_func funcs units).
   Notation find_place := (find_place rows units).
   Notation settle := (settle rows funcs units oc).
-  Notation step_in_loop := (step_in_loop tr rows funcs units oc).
-  Notation step_in := (step_in tr rows funcs units oc).
-  Notation step_over := (step_over tr rows funcs units oc).
-  Notation run := (run tr).
+  Notation step_in_loop := (step_in_loop tr rows funcs units oc ec).
+  Notation step_in := (step_in tr rows funcs units oc ec).
+  Notation step_over := (step_over tr rows funcs units oc ec).
+  Notation run_skip := (run_skip tr).
   Notation step_out := (step_out tr).
   Notation arrive := (arrive tr).
 
@@ -270,7 +271,7 @@ Section StepProofs.
         + destruct (accept a b c rw p); [inversion H; auto|eapply IH; eauto].
         + eapply IH; eauto. }
     unfold Step.step_in.
-    destruct (find_start tr rows units fuel fuel i) as [[j [rw|sg]]|e|e|] eqn:Ef; cbn [bind]; try discriminate.
+    destruct (find_start tr rows units ec fuel fuel i) as [[j [rw|sg]]|e|e|] eqn:Ef; cbn [bind]; try discriminate.
     - destruct (tr j); [|discriminate]. apply L.
     - intros H; inversion H; subst. right. exists sg. split; [reflexivity|].
       clear H. revert i Ef. generalize fuel at 1. intros n; induction n as [|f IH]; intros i Ef; cbn [Step.find_start] in Ef; [discriminate|].
@@ -282,90 +283,223 @@ Section StepProofs.
       + eapply IH; eauto.
   Qed.
 
+
   (* ---------------------------------------------------------------- *)
-  (* continue_execution                                                *)
+  (* the process ends during a step                                    *)
 
-  Definition hit (stops : N -> bool) (k : nat) : Prop :=
-    arrive k /\ exists q, tr k = Some q /\ stops (pc q) = true.
+  Lemma single_step_no_panic fuel pc0 j s : single_step fuel pc0 j <> Panic s.
+  Proof.
+    revert j. induction fuel as [|f IH]; intros j; cbn [Step.single_step]; [discriminate|].
+    destruct (tr j) as [p|]; [|discriminate].
+    destruct (negb (sig p =? 0)); [discriminate|].
+    destruct (pc p =? pc0); [apply IH|discriminate].
+  Qed.
 
-  Lemma run_spec fuel stops prev j s w :
+  (* stepi never panics (before commit c0ceee6 the real single_step did, at the process end) *)
+  Theorem C03_stepi_never_panics fuel i s : stepi fuel i <> Panic s.
+  Proof.
+    unfold Step.stepi, Step.sstep. destruct (tr i) as [p|]; [|discriminate].
+    destruct (single_step fuel (pc p) (S i)) as [[j [sg|]]|c|c|] eqn:E; cbn [bind]; try discriminate.
+    exfalso. eapply single_step_no_panic; eauto.
+  Qed.
+
+  (* the instruction at i ends the process: the step reports ProcessExit with the real status *)
+  Theorem C03_stepi_exit fuel i p :
+    tr i = Some p -> tr (S i) = None -> stepi (S fuel) i = Err (E_EXIT_CODE ec).
+  Proof.
+    intros Ep En. unfold Step.stepi, Step.sstep. rewrite Ep.
+    cbn [Step.single_step]. rewrite En. reflexivity.
+  Qed.
+
+  Theorem C03_step_in_exit fuel i p rw0 :
+    tr i = Some p -> find_place (pc p) = Some rw0 -> tr (S i) = None ->
+    step_in (S fuel) i = Err (E_EXIT_CODE ec).
+  Proof.
+    intros Ep Hpl En. unfold Step.step_in. cbn [Step.find_start]. rewrite Ep, Hpl.
+    cbn [bind]. rewrite Ep. cbn [Step.step_in_loop]. unfold Step.sstep. rewrite Ep.
+    cbn [Step.single_step]. rewrite En. reflexivity.
+  Qed.
+
+  (* ---------------------------------------------------------------- *)
+  (* continue_execution with the frame filter                          *)
+
+  Definition hit (stops : N -> bool) (skip : pt -> bool) (k : nat) : Prop :=
+    arrive k /\ exists q, tr k = Some q /\ stops (pc q) = true /\ skip q = false.
+
+  Lemma run_skip_spec fuel stops skip prev j s w :
     (0 < j)%nat -> (exists p, tr (pred j) = Some p /\ pc p = prev) ->
-    run fuel stops prev j = Ok (s, w) ->
+    run_skip fuel stops skip prev j = Ok (s, w) ->
     (j <= s)%nat /\
-    (forall k, (j <= k < s)%nat -> ~ hit stops k /\ exists q, tr k = Some q /\ sig q = 0) /\
+    (forall k, (j <= k < s)%nat -> ~ hit stops skip k /\ exists q, tr k = Some q /\ sig q = 0) /\
     match w with
-    | WBreakpoint => hit stops s /\ exists q, tr s = Some q /\ sig q = 0
+    | WBreakpoint => hit stops skip s /\ exists q, tr s = Some q /\ sig q = 0
     | WSignal sg => exists q, tr s = Some q /\ sig q = sg /\ sg <> 0
     | WExit => tr s = None
     | WDone => False
     end.
   Proof.
     revert prev j. induction fuel as [|f IH]; intros prev j Hpos (p0 & Ep0 & Hprev) H;
-      cbn [Step.run] in H; [discriminate|].
+      cbn [Step.run_skip] in H; [discriminate|].
     destruct (tr j) as [p|] eqn:Ep.
     - destruct (N.eqb_spec (sig p) 0) as [Hs|Hs]; cbn [negb] in H.
-      + destruct (N.eqb_spec (pc p) prev) as [Hp|Hp]; cbn [negb andb] in H.
-        * apply IH in H; [|lia|exists p; cbn [pred]; auto].
-          destruct H as (A & B & C). split; [lia|]. split; [|exact C].
+      + assert (Hrec : run_skip f stops skip (pc p) (S j) = Ok (s, w) ->
+                       ~ hit stops skip j ->
+                       (j <= s)%nat /\
+                       (forall k, (j <= k < s)%nat -> ~ hit stops skip k /\ exists q, tr k = Some q /\ sig q = 0) /\
+                       match w with
+                       | WBreakpoint => hit stops skip s /\ exists q, tr s = Some q /\ sig q = 0
+                       | WSignal sg => exists q, tr s = Some q /\ sig q = sg /\ sg <> 0
+                       | WExit => tr s = None
+                       | WDone => False
+                       end).
+        { intros H' Hnh. apply IH in H'; [|lia|exists p; cbn [pred]; auto].
+          destruct H' as (A & B & C). split; [lia|]. split; [|exact C].
           intros k Hk. destruct (Nat.eq_dec k j) as [->|Hne]; [|apply B; lia].
-          split; [|exists p; auto].
+          split; [exact Hnh|exists p; auto]. }
+        destruct (N.eqb_spec (pc p) prev) as [Hp|Hp]; cbn [negb andb] in H.
+        * apply Hrec; [exact H|].
           intros ((a & b & Ea & Eb & Hab & _) & _). rewrite Ep0 in Ea. rewrite Ep in Eb.
           inversion Ea; inversion Eb; subst. congruence.
-        * destruct (stops (pc p)) eqn:Est.
-          -- inversion H; subst. split; [lia|]. split; [intros k Hk; lia|].
-             split; [|exists p; auto]. split.
-             ++ exists p0, p. repeat split; auto; congruence.
-             ++ exists p. auto.
-          -- apply IH in H; [|lia|exists p; cbn [pred]; auto].
-             destruct H as (A & B & C). split; [lia|]. split; [|exact C].
-             intros k Hk. destruct (Nat.eq_dec k j) as [->|Hne]; [|apply B; lia].
-             split; [|exists p; auto].
-             intros (_ & (q & Eq & Hq)). rewrite Ep in Eq. inversion Eq; subst. congruence.
+        * destruct (stops (pc p)) eqn:Est; cbn [andb] in H.
+          -- destruct (skip p) eqn:Esk; cbn [negb] in H.
+             ++ apply Hrec; [exact H|].
+                intros (_ & (q & Eq & _ & Hq)). rewrite Ep in Eq. inversion Eq; subst. congruence.
+             ++ inversion H; subst. split; [lia|]. split; [intros k Hk; lia|].
+                split; [|exists p; auto]. split.
+                ** exists p0, p. repeat split; auto; congruence.
+                ** exists p. auto.
+          -- apply Hrec; [exact H|].
+             intros (_ & (q & Eq & Hq & _)). rewrite Ep in Eq. inversion Eq; subst. congruence.
       + inversion H; subst. split; [lia|]. split; [intros k Hk; lia|]. exists p. auto.
     - inversion H; subst. split; [lia|]. split; [intros k Hk; lia|]. exact Ep.
+  Qed.
+
+  Lemma run_skip_no_panic fuel stops skip prev j s : run_skip fuel stops skip prev j <> Panic s.
+  Proof.
+    revert prev j. induction fuel as [|f IH]; intros prev j; cbn [Step.run_skip]; [discriminate|].
+    destruct (tr j) as [p|]; [|discriminate].
+    destruct (negb (sig p =? 0)); [discriminate|].
+    destruct (negb (pc p =? prev) && stops (pc p) && negb (skip p)); [discriminate|apply IH].
+  Qed.
+
+  (* completeness: with enough fuel the run does reach the first hit *)
+  Lemma run_skip_reach stops skip n : forall fuel prev j s,
+    s = (j + n)%nat -> (n < fuel)%nat -> (0 < j)%nat ->
+    (exists p, tr (pred j) = Some p /\ pc p = prev) ->
+    (forall k, (j <= k < s)%nat -> ~ hit stops skip k /\ exists q, tr k = Some q /\ sig q = 0) ->
+    hit stops skip s -> (exists q, tr s = Some q /\ sig q = 0) ->
+    run_skip fuel stops skip prev j = Ok (s, WBreakpoint).
+  Proof.
+    induction n as [|n IH]; intros fuel prev j s Hs Hf Hpos (p0 & Ep0 & Hprev) Hmid Hhit (qs & Eqs & Hsig).
+    - replace s with j in * by lia. destruct fuel as [|f]; [lia|]. cbn [Step.run_skip].
+      rewrite Eqs, Hsig. change (0 =? 0) with true. cbn [negb].
+      destruct Hhit as ((a & b & Ea & Eb & Hab & _) & (q & Eq & Hst & Hsk)).
+      rewrite Eqs in Eq. inversion Eq; subst q. rewrite Ep0 in Ea. rewrite Eqs in Eb.
+      inversion Ea; inversion Eb; subst a b.
+      destruct (N.eqb_spec (pc qs) prev) as [E|E]; [congruence|].
+      rewrite Hst, Hsk. reflexivity.
+    - destruct fuel as [|f]; [lia|]. cbn [Step.run_skip].
+      destruct (Hmid j ltac:(lia)) as (Hnh & (q & Eq & Hq)). rewrite Eq, Hq.
+      change (0 =? 0) with true. cbn [negb].
+      assert (Hc : negb (pc q =? prev) && stops (pc q) && negb (skip q) = false).
+      { destruct (N.eqb_spec (pc q) prev) as [E|E]; cbn [negb andb]; [reflexivity|].
+        destruct (stops (pc q)) eqn:Est; cbn [andb]; [|reflexivity].
+        destruct (skip q) eqn:Esk; cbn [negb]; [reflexivity|].
+        exfalso. apply Hnh. split.
+        - exists p0, q. repeat split; auto; congruence.
+        - exists q. auto. }
+      rewrite Hc. apply IH; try lia.
+      + exists q. cbn [pred]. auto.
+      + intros k Hk. apply Hmid. lia.
+      + exact Hhit.
+      + exists qs. auto.
   Qed.
 
   (* ---------------------------------------------------------------- *)
   (* finish                                                            *)
 
-  (* hypothesis of the partial theorem: the unwound return address is right, and the thread
-     does not arrive at it before the current activation has returned, i.e. the code around the
-     return address is not executed by a deeper activation: no recursion through the caller *)
-  Definition finish_hyp (i R : nat) (r : N) : Prop :=
-    return_point tr i R /\ arrive R /\ (exists q, tr R = Some q /\ pc q = r) /\
-    (forall k q, (i < k < R)%nat -> tr k = Some q -> arrive k -> pc q <> r).
+  (* Remaining hypotheses, all about the unwinder (C05), none about recursion:
+     - [ra = Some r] and r is the pc of the return point R (Debugee::return_addr is right);
+     - the CFA that get_cfa computes at the start and at every hit of the temporary is the
+       trace's cfa (this is how the model reads [cfa]); with an unknown CFA the code falls back
+       to the old behaviour;
+     - the thread arrives at R (the `ret` is not at the return address itself);
+     - r does not already carry a user breakpoint (then no temporary and no filter is used). *)
+  Definition finish_pre (i R : nat) (r : N) : Prop :=
+    return_point tr i R /\ arrive R /\ (exists q, tr R = Some q /\ pc q = r).
 
-  Theorem C03_finish_partial fuel i R r users s :
-    finish_hyp i R r -> memN r users = false ->
+  Lemma finish_skip_facts i p R r :
+    tr i = Some p -> finish_pre i R r ->
+    let stops := active [r] [] in
+    let skip := fun q : pt => (pc q =? r) && (cfa q <=? cfa p) in
+    forall users, memN r users = false ->
+    hit (active [r] users) skip R /\
+    (forall k, (i < k < R)%nat -> ~ hit (active [r] users) skip k).
+  Proof.
+    intros Ep (HR & HaR & (qR & EqR & HpR)) stops skip users Hnu.
+    destruct HR as (p' & Ep' & HiR & (q' & Eq' & Hlt) & Hbelow).
+    rewrite Ep in Ep'. inversion Ep'; subst p'. rewrite EqR in Eq'. inversion Eq'; subst q'.
+    split.
+    - split; [exact HaR|]. exists qR. split; [exact EqR|]. split.
+      + cbn. rewrite HpR, N.eqb_refl. reflexivity.
+      + unfold skip. rewrite HpR, N.eqb_refl. cbn [andb].
+        destruct (N.leb_spec (cfa qR) (cfa p)); [lia|reflexivity].
+    - intros k Hk (_ & (q & Eq & Hst & Hsk)).
+      cbn in Hst. rewrite Bool.orb_false_r in Hst. unfold skip in Hsk. rewrite Hst in Hsk.
+      cbn [andb] in Hsk. apply N.leb_gt in Hsk.
+      specialize (Hbelow k q Hk Eq). lia.
+  Qed.
+
+  (* C03 finish, recursion included: a completed `finish` is at the return point of the
+     activation it started in *)
+  Theorem C03_finish fuel i p R r users s :
+    tr i = Some p -> finish_pre i R r -> memN r users = false ->
     step_out fuel (Some r) users i = Ok (s, WDone) -> s = R.
   Proof.
-    intros (HR & HaR & (qR & EqR & HpR) & Hearly) Hnu.
-    unfold Step.step_out. destruct (tr i) as [p|] eqn:Ep; [|discriminate].
-    rewrite Hnu.
-    destruct (run fuel (active [r] users) (pc p) (S i)) as [[j w]|c|c|] eqn:Er; cbn [bind]; try discriminate.
-    apply run_spec in Er; [|lia|exists p; auto].
+    intros Ep Hpre Hnu.
+    destruct (finish_skip_facts i p R r Ep Hpre users Hnu) as (HhitR & Hnone).
+    unfold Step.step_out. rewrite Ep, Hnu.
+    cbv beta iota.
+    destruct (run_skip fuel (active [r] users) (fun q => (pc q =? r) && (cfa q <=? cfa p)) (pc p) (S i))
+      as [[j w]|c|c|] eqn:Er; cbn [bind]; try discriminate.
+    apply run_skip_spec in Er; [|lia|exists p; auto].
     destruct w; try discriminate; intros H; inversion H; subst j;
       [destruct Er as (_ & _ & [])|].
     destruct Er as (Hle & Hmid & (Hhit & _)).
-    destruct HR as (p' & Ep' & HiR & _ & _).
-    assert (HhitR : hit (active [r] users) R).
-    { split; [exact HaR|]. exists qR. split; [exact EqR|]. cbn. rewrite HpR, N.eqb_refl. reflexivity. }
+    destruct Hpre as ((p' & _ & HiR & _) & _).
     destruct (Nat.lt_trichotomy s R) as [Hlt|[Heq|Hgt]]; [|exact Heq|].
-    - exfalso. destruct Hhit as (Hars & (q & Eq & Hq)).
-      apply (Hearly s q); [lia|exact Eq|exact Hars|].
-      cbn in Hq. rewrite Bool.orb_false_r in Hq. apply N.eqb_eq in Hq. exact Hq.
+    - exfalso. apply (Hnone s); [lia|exact Hhit].
     - exfalso. destruct (Hmid R) as (Hn & _); [lia|]. contradiction.
   Qed.
 
-  (* finish_hyp gives the full specification of finish for the returned position *)
-  Corollary C03_finish_partial_spec fuel i R r users s :
-    finish_hyp i R r -> memN r users = false ->
+  Corollary C03_finish_spec fuel i p R r users s :
+    tr i = Some p -> finish_pre i R r -> memN r users = false ->
     step_out fuel (Some r) users i = Ok (s, WDone) -> finish_spec tr i (s, WDone).
   Proof.
-    intros H1 H2 H3. rewrite (C03_finish_partial _ _ _ _ _ _ H1 H2 H3). exact (proj1 H1).
+    intros H0 H1 H2 H3. rewrite (C03_finish _ _ _ _ _ _ _ H0 H1 H2 H3). exact (proj1 H1).
   Qed.
 
-  (* a finish that ends anywhere else says so *)
+  (* ... and with no signal and no exit on the way (and fuel), finish does complete there *)
+  Theorem C03_finish_complete fuel i p R r users :
+    tr i = Some p -> finish_pre i R r -> memN r users = false ->
+    (forall k, (i < k <= R)%nat -> exists q, tr k = Some q /\ sig q = 0) ->
+    (R - i <= fuel)%nat ->
+    step_out fuel (Some r) users i = Ok (R, WDone).
+  Proof.
+    intros Ep Hpre Hnu Hquiet Hfuel.
+    destruct (finish_skip_facts i p R r Ep Hpre users Hnu) as (HhitR & Hnone).
+    assert (HiR : (i < R)%nat) by (destruct Hpre as ((p' & _ & HiR & _) & _); exact HiR).
+    unfold Step.step_out. rewrite Ep, Hnu. cbv beta iota.
+    rewrite (run_skip_reach _ _ (R - S i) fuel (pc p) (S i) R); try lia.
+    - reflexivity.
+    - exists p. auto.
+    - intros k Hk. split; [apply Hnone; lia|apply Hquiet; lia].
+    - exact HhitR.
+    - apply Hquiet. lia.
+  Qed.
+
+  (* a finish that ends anywhere else says so; it never panics; the process ending on the way is
+     reported as ProcessExit (status 0 in the error, the real one went to the on_exit hook) *)
   Theorem C03_finish_interrupt_reported fuel ra users i s w :
     step_out fuel ra users i = Ok (s, w) ->
     match w with
@@ -377,53 +511,63 @@ Section StepProofs.
   Proof.
     unfold Step.step_out. destruct (tr i) as [p|] eqn:Ep; [|discriminate].
     destruct ra as [r|]; [|intros H; inversion H; exact I].
-    destruct (run fuel (active (if memN r users then [] else [r]) users) (pc p) (S i)) as [[j w']|c|c|] eqn:Er;
+    match goal with |- context [run_skip fuel ?st ?sk ?pv ?j0] =>
+      destruct (run_skip fuel st sk pv j0) as [[j w']|c|c|] eqn:Er end;
       cbn [bind]; try discriminate.
-    apply run_spec in Er; [|lia|exists p; auto]. destruct Er as (_ & _ & Hw).
+    apply run_skip_spec in Er; [|lia|exists p; auto]. destruct Er as (_ & _ & Hw).
     destruct w'; try discriminate.
     - destruct Hw.
     - intros H; inversion H; subst. exact Hw.
     - destruct (memN r users) eqn:Em; intros H; inversion H; subst; [|exact I].
-      destruct Hw as ((_ & (q & Eq & Hq)) & _). exists q. split; [exact Eq|]. exact Hq.
+      destruct Hw as ((_ & (q & Eq & Hq & _)) & _). exists q. split; [exact Eq|]. exact Hq.
+  Qed.
+
+  Theorem C03_finish_never_panics fuel ra users i s : step_out fuel ra users i <> Panic s.
+  Proof.
+    unfold Step.step_out. destruct (tr i) as [p|]; [|discriminate].
+    destruct ra as [r|]; [|discriminate].
+    match goal with |- context [run_skip fuel ?st ?sk ?pv ?j0] =>
+      destruct (run_skip fuel st sk pv j0) as [[j w']|c|c|] eqn:Er end; cbn [bind]; try discriminate.
+    - destruct w'; discriminate.
+    - exfalso. eapply run_skip_no_panic; eauto.
   Qed.
 
   (* ---------------------------------------------------------------- *)
   (* next                                                              *)
 
-  (* hypothesis of the partial theorem: no armed temporary address (statement rows of the
-     current function, return address) is reached in a deeper activation, i.e. the current
-     function (and its caller's return site) is not re-entered before the step completes *)
-  Definition next_hyp (i : nat) (scfa : N) (temps : list N) : Prop :=
-    forall k q, (i < k)%nat -> tr k = Some q -> arrive k -> memN (pc q) temps = true -> scfa <= cfa q.
-
-  (* the position where the `continue` inside `next` stops *)
+  (* the position where the `continue` loop inside `next` stops *)
   Definition next_run (fuel : nat) (ra : option N) (users : list N) (fn : func) (i : nat) (p : pt) :=
-    run fuel (active (next_temps rows fn ra users) users) (pc p) (S i).
+    run_skip fuel (active (next_temps rows fn ra users) users)
+             (fun q => memN (pc q) (next_temps rows fn ra users) && (cfa q <? cfa p))
+             (pc p) (S i).
 
-  Theorem C03_next_partial fuel i p fn ra users s :
-    tr i = Some p -> find_func (pc p) = Some fn ->
+  (* C03 next, recursion included.  Remaining hypotheses: the CFA computed by get_cfa is the
+     trace's cfa (as for finish); at least one temporary breakpoint was armed.
+     The stop is not in a deeper activation, it is at an armed address, and every armed address
+     the thread arrived at on the way was reached in a deeper activation (a callee) only. *)
+  Theorem C03_next fuel i p fn ra users s :
+    tr i = Some p ->
     next_temps rows fn ra users <> [] ->
-    next_hyp i (cfa p) (next_temps rows fn ra users) ->
     next_run fuel ra users fn i p = Ok (s, WBreakpoint) ->
     (i < s)%nat /\
-    (* not inside a callee *)
     (exists q, tr s = Some q /\ cfa p <= cfa q /\ memN (pc q) (next_temps rows fn ra users) = true) /\
-    (* no armed statement row of the current activation, nor the return site, was passed *)
     (forall k q, (i < k < s)%nat -> tr k = Some q -> arrive k ->
-                 memN (pc q) (next_temps rows fn ra users) = false).
+                 memN (pc q) (next_temps rows fn ra users) = true -> cfa q < cfa p).
   Proof.
-    intros Ep Hf Hne Hyp Hr. unfold next_run in Hr.
-    apply run_spec in Hr; [|lia|exists p; auto].
-    destruct Hr as (Hle & Hmid & ((Har & (q & Eq & Hq)) & _)).
+    intros Ep Hne Hr. unfold next_run in Hr.
+    apply run_skip_spec in Hr; [|lia|exists p; auto].
+    destruct Hr as (Hle & Hmid & ((Har & (q & Eq & Hq & Hsk)) & _)).
     assert (Hact : forall a, active (next_temps rows fn ra users) users a = memN a (next_temps rows fn ra users)).
     { intros a. unfold active. destruct (next_temps rows fn ra users); [contradiction|reflexivity]. }
     rewrite Hact in Hq.
     split; [lia|]. split.
-    - exists q. split; [exact Eq|]. split; [|exact Hq]. eapply Hyp; eauto; lia.
-    - intros k qk Hk Eqk Hark.
-      destruct (memN (pc qk) (next_temps rows fn ra users)) eqn:Em; [|reflexivity].
+    - exists q. split; [exact Eq|]. split; [|exact Hq].
+      rewrite Hq in Hsk. cbn [andb] in Hsk. apply N.ltb_ge in Hsk. exact Hsk.
+    - intros k qk Hk Eqk Hark Hm.
+      destruct (N.ltb_spec (cfa qk) (cfa p)) as [Hlt|Hge]; [exact Hlt|].
       exfalso. destruct (Hmid k) as (Hn & _); [lia|]. apply Hn. split; [exact Hark|].
-      exists qk. split; [exact Eqk|]. rewrite Hact. exact Em.
+      exists qk. split; [exact Eqk|]. rewrite Hact. split; [exact Hm|].
+      rewrite Hm. cbn [andb]. apply N.ltb_ge. exact Hge.
   Qed.
 
   (* step_over is that run, followed by the fix-up step_in when the stop is the return address
@@ -432,29 +576,55 @@ Section StepProofs.
     tr i = Some p -> find_func (pc p) = Some fn -> rows <> [] ->
     step_over (S fuel) ra users i = Ok (s, w) ->
     exists s' w', next_run (S fuel) ra users fn i p = Ok (s', w') /\
-      ((s = s' /\ (w' = w \/ w' = WBreakpoint)) \/
-       (exists q r, tr s' = Some q /\ ra = Some r /\ pc q = r /\ step_in (S fuel) s' = Ok (s, w))).
+      ((s = s' /\ ((exists sg, w' = WSignal sg /\ w = w') \/ w' = WBreakpoint)) \/
+       (w' = WBreakpoint /\
+        exists q r, tr s' = Some q /\ ra = Some r /\ pc q = r /\ step_in (S fuel) s' = Ok (s, w))).
   Proof.
     intros Ep Hf Hrows. unfold Step.step_over, next_run.
     cbn [Step.find_fn]. rewrite Ep, Hf. cbn [bind]. rewrite Ep.
     destruct rows as [|r0 rt] eqn:Erows; [contradiction|]. rewrite <- Erows in *.
-    destruct (run (S fuel) (active (next_temps rows fn ra users) users) (pc p) (S i)) as [[j w']|c|c|] eqn:Er;
+    match goal with |- context [run_skip (S fuel) ?st ?sk ?pv ?j0] =>
+      destruct (run_skip (S fuel) st sk pv j0) as [[j w']|c|c|] eqn:Er end;
       cbn [bind]; try discriminate.
     intros H. exists j, w'. split; [reflexivity|].
     destruct w'.
-    - apply run_spec in Er; [|lia|exists p; auto]. destruct Er as (_ & _ & []).
-    - inversion H; subst. left. auto.
+    - apply run_skip_spec in Er; [|lia|exists p; auto]. destruct Er as (_ & _ & []).
+    - inversion H; subst. left. split; [reflexivity|]. left. eexists; eauto.
     - destruct (tr j) as [q|] eqn:Eq; [|discriminate].
       destruct ra as [r|].
       + destruct (N.eqb_spec (pc q) r) as [E|E].
         * destruct (find_place (pc q)) as [pl|]; [|discriminate].
           destruct (r_addr pl =? pc q).
           -- inversion H; subst. left. auto.
-          -- right. exists q, r. auto.
+          -- right. split; [reflexivity|]. exists q, r. auto.
         * inversion H; subst. left. auto.
       + inversion H; subst. left. auto.
     - discriminate.
   Qed.
+
+  (* next never stops inside a callee of the activation it started in -- unless the function
+     returned first and the fix-up `step` (a step_in from the caller, which is allowed to enter
+     the caller's next callee) took over *)
+  Theorem C03_next_not_in_callee fuel i p fn ra users s :
+    tr i = Some p -> find_func (pc p) = Some fn -> rows <> [] ->
+    next_temps rows fn ra users <> [] ->
+    step_over (S fuel) ra users i = Ok (s, WDone) ->
+    not_in_callee tr i (s, WDone) \/
+    (exists s' q r, tr s' = Some q /\ ra = Some r /\ pc q = r /\ cfa p <= cfa q /\
+                    (i < s')%nat /\ step_in (S fuel) s' = Ok (s, WDone)).
+  Proof.
+    intros Ep Hf Hrows Hne H.
+    destruct (C03_next_decompose _ _ _ _ _ _ _ _ Ep Hf Hrows H) as (s' & w' & Er & Hcase).
+    destruct Hcase as [[Hs Hw]|[Hw' (q & r & Eq & Hra & Hpc & Hsi)]].
+    - subst s'. left. destruct Hw as [(sg & Hw1 & Hd)|Hw1]; [congruence|]. subst w'.
+      destruct (C03_next _ _ _ _ _ _ _ Ep Hne Er) as (_ & (q & Eq & Hc & _) & _).
+      intros p1 q1 E1 E2. cbn [fst] in E2. rewrite Ep in E1. rewrite Eq in E2.
+      inversion E1; inversion E2; subst. exact Hc.
+    - subst w'. right. destruct (C03_next _ _ _ _ _ _ _ Ep Hne Er) as (Hlt & (q' & Eq' & Hc & _) & _).
+      rewrite Eq in Eq'. inversion Eq'; subst q'.
+      exists s', q, r. auto 10.
+  Qed.
+
 End StepProofs.
 
 (* ================================================================== *)
@@ -502,84 +672,60 @@ Proof.
   - apply N.eqb_eq. exact H2.
 Qed.
 
-(* finish: R is the return point, the thread arrives there at r, and not at r before *)
-Definition finish_hyp_b (l : list pt) (i R : nat) (r : N) : bool :=
+(* finish: R is the return point of i's activation, the thread arrives there, at r *)
+Definition finish_pre_b (l : list pt) (i R : nat) (r : N) : bool :=
   match nth_error l i, nth_error l R with
   | Some p, Some q =>
       Nat.ltb i R && (cfa p <? cfa q) && (pc q =? r) && arrive_b l R &&
       forallb (fun k => match nth_error l k with
-                        | Some qk => (cfa qk <=? cfa p) && negb (arrive_b l k && (pc qk =? r))
+                        | Some qk => cfa qk <=? cfa p
                         | None => false
                         end) (seq (S i) (R - S i))
   | _, _ => false
   end.
 
-Lemma finish_hyp_b_ok l i R r : finish_hyp_b l i R r = true -> finish_hyp (trace_of_list l) i R r.
+Lemma finish_pre_b_ok l i R r : finish_pre_b l i R r = true -> finish_pre (trace_of_list l) i R r.
 Proof.
-  unfold finish_hyp_b, finish_hyp, return_point, trace_of_list.
+  unfold finish_pre_b, finish_pre, return_point, trace_of_list.
   destruct (nth_error l i) as [p|] eqn:Ep; [|discriminate].
   destruct (nth_error l R) as [q|] eqn:Eq; [|discriminate].
   intros H. repeat (apply andb_prop in H; destruct H as [H ?]).
   apply Nat.ltb_lt in H. rewrite forallb_forall in H0.
   assert (Hin : forall k, (i < k < R)%nat -> In k (seq (S i) (R - S i))) by (intros k Hk; apply in_seq; lia).
-  split; [|split; [apply arrive_b_ok; assumption|split]].
+  split; [|split; [apply arrive_b_ok; assumption|]].
   - exists p. split; [reflexivity|]. split; [exact H|]. split.
     + exists q. split; [reflexivity|]. apply N.ltb_lt. assumption.
-    + intros k qk Hk Ek. specialize (H0 k (Hin k Hk)). rewrite Ek in H0.
-      apply andb_prop in H0. destruct H0 as [H0 _]. apply N.leb_le. exact H0.
+    + intros k qk Hk Ek. specialize (H0 k (Hin k Hk)). rewrite Ek in H0. apply N.leb_le. exact H0.
   - exists q. split; [reflexivity|]. apply N.eqb_eq. assumption.
-  - intros k qk Hk Ek Har Hpc. specialize (H0 k (Hin k Hk)). rewrite Ek in H0.
-    apply andb_prop in H0. destruct H0 as [_ H0].
-    rewrite (arrive_b_complete _ _ Har), Hpc, N.eqb_refl in H0. discriminate.
-Qed.
-
-(* next: every arrival at an armed address after i is in an activation that is not deeper *)
-Definition next_hyp_b (l : list pt) (i : nat) (scfa : N) (temps : list N) : bool :=
-  forallb (fun k => match nth_error l k with
-                    | Some q => negb (arrive_b l k && memN (pc q) temps) || (scfa <=? cfa q)
-                    | None => true
-                    end) (seq (S i) (length l - S i)).
-
-Lemma next_hyp_b_ok l i scfa temps :
-  next_hyp_b l i scfa temps = true -> next_hyp (trace_of_list l) i scfa temps.
-Proof.
-  unfold next_hyp_b, next_hyp, trace_of_list. rewrite forallb_forall.
-  intros H k q Hk Eq Har Hm.
-  assert (Hlen : (k < length l)%nat) by (apply nth_error_Some; congruence).
-  specialize (H k). rewrite Eq in H.
-  assert (Hin : In k (seq (S i) (length l - S i))) by (apply in_seq; lia).
-  specialize (H Hin). rewrite (arrive_b_complete _ _ Har), Hm in H. cbn in H.
-  apply N.leb_le. exact H.
 Qed.
 
 (* ================================================================== *)
-(* refutations                                                         *)
+(* refutations that remain                                             *)
 
 (* stepi on a self-jump (`jmp .`, what `loop {}` compiles to): single_step re-steps while the
    pc has not changed, so it never returns *)
 Definition spin : trace := fun _ => Some {| pc := 0x1000; cfa := 0x7000; sig := 0 |}.
 
+Lemma spin_single_step ec : forall f j, single_step spin ec f 0x1000 j = OutOfFuel.
+Proof.
+  induction f as [|f IH]; intros j; cbn [single_step]; [reflexivity|].
+  cbn [spin sig pc]. change (0 =? 0) with true. cbn [negb]. rewrite N.eqb_refl. apply IH.
+Qed.
+
 Theorem C03_stepi_refuted :
-  exists (t : trace) (i : nat), (forall j, t j <> None) /\ forall fuel, stepi t fuel i = OutOfFuel.
+  exists (t : trace) (i : nat), (forall j, t j <> None) /\ forall ec fuel, stepi t ec fuel i = OutOfFuel.
 Proof.
   exists spin, O. split; [intros j; discriminate|].
-  intros fuel. unfold stepi, sstep. cbn [spin pc bind].
-  assert (L : forall f j, single_step spin f 0x1000 j = OutOfFuel).
-  { induction f as [|f IH]; intros j; cbn [single_step]; [reflexivity|].
-    cbn [spin sig pc]. change (0 =? 0) with true. cbn [negb]. rewrite N.eqb_refl. apply IH. }
-  rewrite L. reflexivity.
+  intros ec fuel. unfold stepi, sstep. cbn [spin pc bind]. rewrite spin_single_step. reflexivity.
 Qed.
 
 (* the same hang for step (step_in): every fuel *)
 Theorem C03_step_selfjump_refuted :
-  forall fuel, step_in spin [] [] [] false fuel O = OutOfFuel.
+  forall ec fuel, step_in spin [] [] [] false ec fuel O = OutOfFuel.
 Proof.
-  assert (L : forall f j, single_step spin f 0x1000 j = OutOfFuel).
-  { induction f as [|f IH]; intros j; cbn [single_step]; [reflexivity|].
-    cbn [spin sig pc]. change (0 =? 0) with true. cbn [negb]. rewrite N.eqb_refl. apply IH. }
-  intros fuel. unfold step_in. destruct fuel as [|f]; [reflexivity|].
+  intros ec fuel. unfold step_in. destruct fuel as [|f]; [reflexivity|].
   cbn [find_start spin]. unfold find_place, in_unit. cbn [existsb pc].
-  unfold sstep. cbn [spin pc]. rewrite L. reflexivity.
+  unfold sstep. cbn [spin pc]. rewrite spin_single_step. reflexivity.
 Qed.
 
 (* ---- a recursive program ----
@@ -615,44 +761,48 @@ Definition R_trace : list pt :=
     P 0x1050 0x7f00; P 0x1060 0x7f00; P 0x1080 0x7f00; P 0x1090 0x7f00;   (* 17-20 back in fact(2) *)
     P 0x2010 0x8000; P 0x2020 0x8000 ].                                    (* 21-22 main *)
 
-(* finish from fact(1) (position 7, caller = fact(2), return address 0x1050): the real return
-   point is 17 (cfa 0x7f00), the model stops at 13: still in fact(1), the activation it started
-   in, when fact(0) returns to the same address *)
-Theorem C03_finish_refuted :
-  exists l i r s,
-    step_out (trace_of_list l) 100 (Some r) [] i = Ok (s, WDone) /\
-    return_point (trace_of_list l) i 17 /\ s <> 17%nat /\
-    (exists p q, nth_error l i = Some p /\ nth_error l s = Some q /\ cfa q = cfa p).
-Proof.
-  exists R_trace, 7%nat, 0x1050, 13%nat. split; [vm_compute; reflexivity|]. split.
-  - exists (P 0x1020 0x7e00). split; [reflexivity|]. split; [lia|]. split.
-    + exists (P 0x1050 0x7f00). split; [reflexivity|]. vm_compute. reflexivity.
-    + intros k q Hk Ek.
-      assert (Hc : In k (seq 8 9)) by (apply in_seq; lia).
-      cbn in Hc. repeat (destruct Hc as [<-|Hc]; [unfold trace_of_list in Ek; cbn in Ek; inversion Ek; subst q; vm_compute; discriminate|]).
-      destruct Hc.
-  - split; [lia|]. exists (P 0x1020 0x7e00), (P 0x1050 0x7e00). auto.
-Qed.
-
-(* next on line 3 of fact(2) (position 3, cfa 0x7f00): stops at position 6 = line 2 of the
-   deeper activation fact(1) (cfa 0x7e00 < 0x7f00): inside a callee *)
-Theorem C03_next_refuted :
-  exists l i s p q,
-    step_over (trace_of_list l) R_rows R_funcs R_units false 100 (Some 0x2010) [] i = Ok (s, WDone) /\
-    nth_error l i = Some p /\ nth_error l s = Some q /\ cfa q < cfa p /\
-    ~ not_in_callee (trace_of_list l) i (s, WDone).
-Proof.
-  exists R_trace, 3%nat, 6%nat, (P 0x1020 0x7f00), (P 0x1008 0x7e00).
-  split; [vm_compute; reflexivity|]. split; [reflexivity|]. split; [reflexivity|].
-  split; [vm_compute; reflexivity|].
-  intros H. specialize (H (P 0x1020 0x7f00) (P 0x1008 0x7e00) eq_refl eq_refl).
-  vm_compute in H. apply H. reflexivity.
-Qed.
-
-(* the hypothesis of C03_next_partial is what fails there *)
-Example next_hyp_fails_on_recursion :
-  next_hyp_b R_trace 3 0x7f00 (next_temps R_rows R_fact (Some 0x2010) []) = false.
+(* finish from fact(1) (position 7, caller = fact(2), return address 0x1050): fact(0) returns to
+   0x1050 first (position 13, cfa 0x7e00 = the starting frame, not older: passed), the step ends
+   at the real return point 17 in fact(2).  Before commit c5c41d3 it ended at 13. *)
+Example finish_recursion_example :
+  step_out (trace_of_list R_trace) 100 (Some 0x1050) [] 7 = Ok (17%nat, WDone).
 Proof. vm_compute. reflexivity. Qed.
+
+Example finish_pre_example : finish_pre_b R_trace 7 17 0x1050 = true.
+Proof. vm_compute. reflexivity. Qed.
+
+(* the general theorem applied to the recursive trace *)
+Example finish_recursion_by_theorem s :
+  step_out (trace_of_list R_trace) 100 (Some 0x1050) [] 7 = Ok (s, WDone) -> s = 17%nat.
+Proof.
+  apply (C03_finish (trace_of_list R_trace) 100 7 (P 0x1020 0x7e00) 17 0x1050 []).
+  - reflexivity.
+  - apply finish_pre_b_ok. vm_compute. reflexivity.
+  - reflexivity.
+Qed.
+
+Example finish_complete_example :
+  step_out (trace_of_list R_trace) 10 (Some 0x1050) [] 7 = Ok (17%nat, WDone).
+Proof.
+  apply (C03_finish_complete (trace_of_list R_trace) 10 7 (P 0x1020 0x7e00) 17 0x1050 []).
+  - reflexivity.
+  - apply finish_pre_b_ok. vm_compute. reflexivity.
+  - reflexivity.
+  - intros k Hk. assert (Hc : In k (seq 8 10)) by (apply in_seq; lia).
+    cbn in Hc. repeat (destruct Hc as [<-|Hc]; [eexists; split; reflexivity|]). destruct Hc.
+  - lia.
+Qed.
+
+(* next on line 3 of fact(2) (position 3, cfa 0x7f00): the statement rows hit by fact(1) and
+   fact(0) are passed, the step ends on line 4 of fact(2) (position 18).  Before the fix: 6. *)
+Example next_recursion_example :
+  step_over (trace_of_list R_trace) R_rows R_funcs R_units false 0 100 (Some 0x2010) [] 3 = Ok (18%nat, WDone) /\
+  not_in_callee (trace_of_list R_trace) 3 (18%nat, WDone).
+Proof.
+  split; [vm_compute; reflexivity|].
+  intros p q E1 E2. unfold trace_of_list in *. cbn in E1, E2. inversion E1; inversion E2; subst.
+  vm_compute. discriminate.
+Qed.
 
 (* ---- a user breakpoint on the next line ----
    straight-line function g at [0x3000,0x3100): lines 21, 22, 23; the user has a breakpoint on
@@ -674,7 +824,7 @@ Definition U_trace : list pt :=
 
 Theorem C03_next_userbp_refuted :
   exists l users i s,
-    step_over (trace_of_list l) U_rows [U_g] [(0x3000, 0x3100)] false 100 (Some 0x2010) users i = Ok (s, WDone) /\
+    step_over (trace_of_list l) U_rows [U_g] [(0x3000, 0x3100)] false 0 100 (Some 0x2010) users i = Ok (s, WDone) /\
     (* position 2 is a statement boundary of the same activation on another line, passed *)
     (exists q rw, (i < 2 < s)%nat /\ nth_error l 2 = Some q /\ cfa q = 0x7000 /\
                   stmt_at U_rows (pc q) rw /\ r_line rw = 22 /\ arrive (trace_of_list l) 2) /\
@@ -689,40 +839,49 @@ Proof.
   - vm_compute. reflexivity.
 Qed.
 
-(* ---- non-vacuity of the partial theorems ---- *)
+(* ---- further examples ---- *)
 
 Example stepi_hyp_example : stepi_hyp_b R_trace 3 = true.
 Proof. vm_compute. reflexivity. Qed.
 
-(* finish from fact(0) (position 10): its return address 0x1050 is first reached at 13 *)
-Example finish_hyp_example : finish_hyp_b R_trace 10 13 0x1050 = true.
-Proof. vm_compute. reflexivity. Qed.
-
+(* finish from fact(0) (position 10) *)
 Example finish_example :
   step_out (trace_of_list R_trace) 100 (Some 0x1050) [] 10 = Ok (13%nat, WDone).
 Proof. vm_compute. reflexivity. Qed.
 
-(* next on line 4 of fact(1) (position 14): no deeper re-entry afterwards *)
-Example next_hyp_example :
-  next_hyp_b R_trace 14 0x7e00 (next_temps R_rows R_fact (Some 0x1050) []) = true.
-Proof. vm_compute. reflexivity. Qed.
-
+(* next on line 4 of fact(1) (position 14) *)
 Example next_example :
-  step_over (trace_of_list R_trace) R_rows R_funcs R_units false 100 (Some 0x1050) [] 14 = Ok (15%nat, WDone).
+  step_over (trace_of_list R_trace) R_rows R_funcs R_units false 0 100 (Some 0x1050) [] 14 = Ok (15%nat, WDone).
 Proof. vm_compute. reflexivity. Qed.
 
 (* step from line 3 of fact(2) enters fact(1) and stops on its first line after the prologue *)
 Example step_in_example :
-  step_in (trace_of_list R_trace) R_rows R_funcs R_units false 100 3 = Ok (6%nat, WDone).
+  step_in (trace_of_list R_trace) R_rows R_funcs R_units false 0 100 3 = Ok (6%nat, WDone).
 Proof. vm_compute. reflexivity. Qed.
+
+(* the process ends during the step: ProcessExit with the real status (here 3), no panic *)
+Example stepi_exit_example :
+  stepi (trace_of_list R_trace) 3 100 22 = Err (E_EXIT_CODE 3) /\
+  step_in (trace_of_list R_trace) R_rows R_funcs R_units false 3 100 22 = Err (E_EXIT_CODE 3) /\
+  step_over (trace_of_list R_trace) R_rows R_funcs R_units false 3 100 None [] 22 = Err E_EXIT /\
+  step_out (trace_of_list R_trace) 100 (Some 0x9999) [] 22 = Err E_EXIT.
+Proof. repeat split; vm_compute; reflexivity. Qed.
 
 (* find_exact_place_by_pc on the first row of the unit: `p -= 1` with p = 0 *)
 Example find_exact_first_row_panics :
   find_exact R_rows R_units true 0x1000 = Panic 30.
 Proof. vm_compute. reflexivity. Qed.
 
+(* the recursion case: what the repaired debugger does agrees with model and specification;
+   the stop of the old code (0x1008 in the deeper frame) is a violation *)
 Example case_example :
   step_check {| sc_trace := R_trace; sc_rows := R_rows; sc_funcs := R_funcs; sc_units := R_units;
                 sc_start := 3; sc_kind := KNext; sc_ret := Some 0x2010; sc_users := [];
-                sc_stop_pc := 0x1008; sc_stop_cfa := 0x7e00; sc_place := Some (1, 2) |} = 2.
-Proof. vm_compute. reflexivity. Qed.
+                sc_stop_pc := 0x1060; sc_stop_cfa := 0x7f00; sc_place := Some (1, 4) |} = 0 /\
+  step_check {| sc_trace := R_trace; sc_rows := R_rows; sc_funcs := R_funcs; sc_units := R_units;
+                sc_start := 3; sc_kind := KNext; sc_ret := Some 0x2010; sc_users := [];
+                sc_stop_pc := 0x1008; sc_stop_cfa := 0x7e00; sc_place := Some (1, 2) |} = 2 /\
+  step_check {| sc_trace := R_trace; sc_rows := R_rows; sc_funcs := R_funcs; sc_units := R_units;
+                sc_start := 7; sc_kind := KFinish; sc_ret := Some 0x1050; sc_users := [];
+                sc_stop_pc := 0x1050; sc_stop_cfa := 0x7f00; sc_place := Some (1, 3) |} = 0.
+Proof. repeat split; vm_compute; reflexivity. Qed.
